@@ -350,6 +350,21 @@ theorem truncated_file_read_from_beginning (od nd : Desc) (restat : Option Nat) 
   simp only [] at this
   exact ⟨this.2.1, by rw [this.2.2]; simp⟩
 
+/-- **`cex_missing_from_one_scan_restarts`** (finding F61) `mergeDescs` builds its result from the ids of the new scan
+only. A file that one scan does not find (renamed away and back, a failing `os.Stat`) loses its descriptor — and
+with it the offset 17 —; the next scan, which finds it again, adds it as a new file with offset 0: the file is sent
+again although it only grew. -/
+theorem cex_missing_from_one_scan_restarts :
+    codeMerge [⟨[105, 100], 17, 17⟩] [] = [] ∧
+    codeMerge [] [(⟨[105, 100], 0, 17⟩, none)] = [(⟨[105, 100], 0, 17⟩, false)] := by decide
+
+/-- **`cex_replaced_file_regrown_keeps_offset`** (finding F64) same path and inode, all 26 old bytes shipped, the file
+is replaced in place and has 55 bytes at the next scan: the id and the sizes cannot tell, the old descriptor — offset
+26 — is kept, the first 26 bytes of the new content are never read. (`truncated_file_read_from_beginning` needs the
+size the merge decides with to be below the offset or the size seen last.) -/
+theorem cex_replaced_file_regrown_keeps_offset :
+    codeMergeOne (some ⟨[105, 100], 26, 26⟩) ⟨[105, 100], 0, 55⟩ (some 55) = (⟨[105, 100], 26, 55⟩, true) := by decide
+
 /-- **`cex_stale_size_resend_old`** (finding F17b, fixed by f247e22 — kept as the behaviour of the *old* merge,
 `restats = false`): 17 bytes at the scan's stat, 31 bytes shipped and confirmed by the time of the merge ⇒ the
 scanned descriptor (offset 0) replaces the old one and the file is sent again. With the second stat it is kept. -/
